@@ -142,6 +142,12 @@ def ulp (f : Fmt) (b : Nat) : Nat :=
   else if pyLt0 f b then ulpPos f (negBits f b)
   else ulpPos f b
 
+/-- NOT a port of the code: the minimal repair of `ulp` that the docstring identities require
+    (`if 0 < |x| < smallest_normal: return smallest_subnormal`), used only by the theorem
+    `C14.ulp_next_repaired` to show that this one extra branch makes the identities hold everywhere. -/
+def ulpRepaired (f : Fmt) (b : Nat) : Nat :=
+  if magBits f b ≠ 0 ∧ magBits f b < f.minNormalBits then 1 else ulp f b
+
 /-! ### specification objects: neighbours and scaled values -/
 
 /-- `numpy.nextafter(x, +inf)` on non-NaN patterns other than `+inf` (`-0` steps to the smallest
